@@ -35,4 +35,36 @@ PROPS = {
         ops=[r'^disp ', r'^inst_disp', r'^hub \S+ updateglobal'],
         assumes=['swap and oracle stubs of PROTOCOL.md section 4 (E7)', 'bank rejects zero-coin sends (E5)'],
     ),
+    'C10': dict(
+        props_file='Props/C10.v',
+        theorems=['C10_hub', 'C10_dispatcher', 'C10_reward', 'C10_registry', 'C10_bsei_token', 'C10_stsei_token',
+                  'C10_hub_set_owner', 'C10_hub_accept', 'C10_token_addr_immutable', 'C10_hub_static',
+                  'C10_rejected_changes_nothing', 'C10_root_rejected'],
+        kernels=[], scenarios=['basic.ops'], grid=True, profiles=['config'],
+        keys=['hub.cfg', 'hub.newowner', 'hub.params', 'rw.cfg', 'rw.newowner', 'dp.cfg', 'dp.newowner', 'rg.cfg',
+              'rg.newowner', 'rg.vals', 'tok.bsei.info', 'tok.stsei.info'],
+        ops=[r'^(hub|reward|disp|reg) ', r'^bond rw', r'^cw \S+ \S+ (mint|burn|updminter)'],
+        assumes=['the grid (message variant x sender class x world kind) is enumerated exhaustively by the harness'],
+    ),
+    'C11': dict(
+        props_file='Props/C11.v',
+        theorems=['C11_paused_blocks', 'C11_paused_tx_rejected', 'C11_params_owner_only', 'C11_no_unpause_with_legacy',
+                  'C11_migrate_unpauses_only_when_drained', 'C11_queries_ignore_pause', 'C11_pause_cycle_identity',
+                  'C11_migrate_noop_without_legacy'],
+        kernels=[], scenarios=['basic.ops'], grid=True, profiles=['pause'],
+        keys=['hub.'],
+        ops=[r'^hub ', r'^bond ', r'^legacy_wait'],
+        assumes=['legacy wait-list entries only for user0..user7 and batch ids 1..9 (storage order = model order, PROTOCOL.md 3.1)'],
+    ),
+    'C20': dict(
+        props_file='Props/C20.v',
+        theorems=['C20_params_in_range', 'C20_denoms_fixed', 'C20_hub_params_omitted', 'C20_hub_config_omitted',
+                  'C20_disp_config_omitted', 'C20_reward_config_omitted', 'C20_reg_config_omitted',
+                  'C20_rejected_changes_nothing'],
+        kernels=[], scenarios=['basic.ops'], profiles=['config'],
+        keys=['hub.params', 'hub.cfg', 'dp.cfg', 'rw.cfg', 'rg.cfg', 'hub.newowner', 'dp.newowner', 'rw.newowner', 'rg.newowner'],
+        ops=[r'^inst_', r'^hub \S+ (params|config)', r'^disp \S+ (config|swapdenom|swapcontract|oracle)',
+             r'^reward \S+ (config|swapdenom)', r'^reg \S+ config'],
+        assumes=[],
+    ),
 }
